@@ -171,7 +171,8 @@ def generate() -> dict:
     ch2 = write_if_changed(GEN / "Profiles.lean", "\n".join(pl))
     ch3 = generate_tables(sites)
     ch4 = generate_returns(sites)
-    return {"tables_changed": ch3, "returns_changed": ch4, "sites": len(sites), "conditional_sites": sum(1 for s in sites if s["cond"]),
+    ch5 = generate_globals()
+    return {"tables_changed": ch3, "returns_changed": ch4, "globals_changed": ch5, "sites": len(sites), "conditional_sites": sum(1 for s in sites if s["cond"]),
             "profiles": {k: (None if v is None else len(v)) for k, v in profs.items()},
             "changed": [n for n, c in [("Sites.lean", ch1), ("Profiles.lean", ch2)] if c],
             "site_list": sites}
@@ -276,6 +277,76 @@ def generate_returns(sites) -> bool:
                           for n, ks, r in rows))
     tl += ["]", "", "end AiuVerif.Gen", ""]
     return write_if_changed(GEN / "Returns.lean", "\n".join(tl))
+
+
+_MUTABLE_CTORS = ("dict", "list", "set", "defaultdict", "OrderedDict", "Counter", "deque")
+_HARMLESS_CALLS = ("compile", "getLogger", "frozenset", "tuple", "int", "float", "str", "bool", "range", "auto", "TypeVar",
+                   "namedtuple", "join", "dirname", "Path")
+
+
+def process_level_state():
+    """Inventory of process-level mutable state of the package: module-level and class-body-level names bound
+    to a dict / list / set (literal, comprehension or constructor call) or to an instance of some class, and
+    class attributes assigned through `cls.<name> = ...` inside methods.  Anything here outlives an
+    Acelyzer.run() and is therefore a potential hidden input (C14)."""
+    root = repo_src()
+    out = []
+
+    def kind(v):
+        if isinstance(v, (ast.Dict, ast.DictComp)):
+            return "dict"
+        if isinstance(v, (ast.List, ast.ListComp)):
+            return "list"
+        if isinstance(v, (ast.Set, ast.SetComp)):
+            return "set"
+        if isinstance(v, ast.Call):
+            f = v.func
+            n = f.id if isinstance(f, ast.Name) else (f.attr if isinstance(f, ast.Attribute) else "?")
+            if n in _MUTABLE_CTORS:
+                return n
+            if n in _HARMLESS_CALLS:
+                return None
+            return "instance:" + n
+        return None
+
+    for p in sorted(root.rglob("*.py")):
+        mod = str(p.relative_to(root))[:-3].replace("/", ".")
+        tree = ast.parse(p.read_text())
+
+        def scan(body, prefix):
+            for st in body:
+                tg = None
+                if isinstance(st, ast.Assign) and len(st.targets) == 1 and isinstance(st.targets[0], ast.Name):
+                    tg, v = st.targets[0].id, st.value
+                elif isinstance(st, ast.AnnAssign) and isinstance(st.target, ast.Name) and st.value is not None:
+                    tg, v = st.target.id, st.value
+                if tg:
+                    k = kind(v)
+                    if k:
+                        out.append((mod, prefix + tg, k))
+                if isinstance(st, ast.ClassDef):
+                    scan(st.body, prefix + st.name + ".")
+                    for sub in ast.walk(st):
+                        if isinstance(sub, (ast.Assign, ast.AugAssign)):
+                            tgs = sub.targets if isinstance(sub, ast.Assign) else [sub.target]
+                            for t in tgs:
+                                if isinstance(t, ast.Attribute) and isinstance(t.value, ast.Name) and t.value.id == "cls":
+                                    out.append((mod, prefix + st.name + "." + t.attr, "cls-attr"))
+        scan(tree.body, "")
+    return sorted(set(out))
+
+
+def generate_globals() -> bool:
+    rows = process_level_state()
+    tl = ["/- GENERATED by harness/translate.py: inventory of process-level mutable state of the package",
+          "   (module-level / class-level dict, list, set, instances; attributes assigned through `cls.`)",
+          "   of the current /repo tree. Do not edit. -/",
+          "namespace AiuVerif.Gen", "",
+          "/-- module, qualified name, kind -/",
+          "def globals : List (String × String × String) := ["]
+    tl.append(",\n".join(f"  ({lean_str(m)}, {lean_str(n)}, {lean_str(k)})" for m, n, k in rows))
+    tl += ["]", "", "end AiuVerif.Gen", ""]
+    return write_if_changed(GEN / "Globals.lean", "\n".join(tl))
 
 
 def generate_tables(sites) -> bool:
